@@ -553,7 +553,7 @@ impl AuthenticationProtocol  for Ntlm {
             target_info[&AvId::MsvAvTimestamp].clone()
         }
         else {
-            panic!("no timestamp available")
+            return Err(Error::RdpError(RdpError::new(RdpErrorKind::InvalidData, "No MsvAvTimestamp in the challenge target info")))
         };
 
         // generate client challenge
